@@ -29,6 +29,9 @@ def run(ctx):
             vlib.run_harness(['operator', 'build', 'out=' + tr, 'seed=%d' % (sd * 10 + stores), 'cases=%d' % cases, 'stores=%d' % stores])
             bad, evs = ctx.monitor_all('operator', 'Steps', 'Steps.cfg', tr, 'build_%d_%d' % (sd, stores), timeout=6000)
             handle(ctx, bad, evs, 'build_%d_%d' % (sd, stores))
+            ctx.tally([e for e in evs if e.get('ev') in ('op', 'refused')],
+                      lambda e: [e.get(k) for k in ('joint', 'light', 'force', 'origin', 'leader', 'target', 'target_leader')],
+                      lambda e: e.get('ev') == 'op' and len(e['steps']) >= 2)
             s = evs[-1]
             ctx.extra['operators_built'] = ctx.extra.get('operators_built', 0) + s['built']
             ctx.extra['requests_refused_by_builder'] = ctx.extra.get('requests_refused_by_builder', 0) + s['refused']
@@ -39,7 +42,7 @@ def run(ctx):
             for k, v in kinds.items():
                 ctx.extra.setdefault('step_kinds', {})[k] = ctx.extra.get('step_kinds', {}).get(k, 0) + v
             ctx.sample({'kind': 'builder case', 'case': next(e for e in evs if e.get('ev') == 'op' and len(e['steps']) > 2)})
-    return ctx.finish(level='exploration', rule='Steps.tla gives every step kind its TiKV-side precondition and effect and states the C08 clauses over every intermediate '
+    return ctx.finish(level='exploration', rule='evaluations = builder requests; non-trivial = an operator of at least two steps was produced, distinct by (flags, origin, leader, target, target leader). Steps.tla gives every step kind its TiKV-side precondition and effect and states the C08 clauses over every intermediate '
                            'state; seeded requests (3-6 stores incl. down/offline/reject-leader stores, origin with learners, pending peers and a '
                            'leader, arbitrary target peers and roles, optional target leader, joint consensus on/off, light-weight and forced-leader '
                            'variants) are given to the real operator.Builder; every produced step list is executed by TLC on the model and, in the '
